@@ -264,6 +264,7 @@ def run(ck):
     # frame base of the selected frame come from restore_registers_at_frame / get_cfa (shared with C05)
     from rules import C05
     C05.rule_frame_steps(ck)
+    C05.rule_frame_registers_fresh(ck)
     rule_innermost(ck)
     regs.rule_numbering(ck)
     rule_scope(ck)
